@@ -27,7 +27,7 @@ Wide == {
 Narrow == { <<106, 97, 118, 97>>, <<115, 99, 114, 105, 112, 116>>, <<58>>, <<9>>, <<32>>, <<1>>, <<100, 97, 116, 97>>, <<120>> }
 Data == { <<100, 97, 116, 97, 58>>, <<105, 109, 97, 103, 101, 47>>, <<112, 110, 103>>, <<112, 96, 110, 103>>,     \* data: image/ png p`ng
           <<116, 101, 120, 116, 47, 104, 116, 109, 108>>, <<44>>, <<59, 98, 97, 115, 101, 54, 52>>,              \* text/html , ;base64
-          <<32>>, <<35>>, <<65, 43>>, <<12>>, <<73, 77, 65, 71, 69, 47>>,                                        \* SP # A+ FF IMAGE/
+          <<32>>, <<12>>, <<73, 77, 65, 71, 69, 47>>,                                                            \* SP FF IMAGE/
           <<59, 99, 104, 97, 114, 115, 101, 116, 61, 120>> }                                                    \* ;charset=x
 Frags == CASE Alphabet = "wide" -> Wide [] Alphabet = "narrow" -> Narrow [] Alphabet = "data" -> Data
 
